@@ -2158,8 +2158,9 @@ class x86_mn(x86_mn_base):
         return self.offset+self.l
 
     def getdstflow(self):
-        if self.m.name == "jmpf":
-            # HACK
+        if self.m.name == "jmpf" or \
+                (self.m.name == "call" and len(self.arg) == 2):
+            # HACK: far jump / far call (9A), operands are offset, segment
             return [self.arg[0]]
         if len(self.arg) !=1:
             raise ValueError('should be 1 arg %s' % self)
